@@ -590,7 +590,15 @@ func (pr *printer) expr(e Expr, afterVar bool) {
 	case *Lambda:
 		pr.lambdaBody(e)
 	case *Index:
-		pr.expr(e.X, afterVar)
+		if _, isCompound := e.X.(*Compound); isCompound {
+			// an index binds to the last primary only: a compound indexee has
+			// to be grouped with a braced list to be indexed as a whole
+			pr.w("{")
+			pr.expr(e.X, false)
+			pr.w("}")
+		} else {
+			pr.expr(e.X, afterVar)
+		}
 		for _, br := range e.Indices {
 			pr.w("[")
 			for i, ix := range br {
